@@ -49,14 +49,15 @@ Qed.
 (* and handling that StartStage re-plans the stage (zombie path) when it is still ready *)
 Theorem replan_plan_pending s id i k st :
   s_status st = RUNNING -> s_plan_pending st = true -> s_bypass st = false ->
-  should_skip st = false -> s_mutex st = None -> s_choice st = None ->
+  should_skip st = false -> milestone_expired s st = false -> y_expired (s_syn st) = false ->
+  s_mutex st = None -> s_choice st = None ->
   exists claimed planned,
     h_commits (start_if_ready s id i k st false) =
       [[OClaims (w_claims s); OPut i claimed]; OPut i planned :: map OAdd (new_before s i st) ++ OMark id :: c_pushes (first_msgs s i st) ++ []]
     /\ s_plan_pending planned = false /\ s_ctx planned = planned_ctx s st /\ s_status planned = RUNNING.
 Proof.
-  intros E P B Sk M C. unfold start_if_ready. rewrite E, P. simpl.
-  rewrite Sk. unfold mutex_blocked, choice_claimed. rewrite M, C. simpl.
+  intros E P B Sk Ms Ex M C. unfold start_if_ready. rewrite E, P. simpl.
+  rewrite Sk, Ms, Ex. unfold mutex_blocked, choice_claimed. rewrite M, C. simpl.
   eexists. eexists. split; [reflexivity|]. simpl. rewrite E. auto.
 Qed.
 
@@ -65,7 +66,8 @@ Qed.
    CancelStage messages it pushes are for siblings, never for itself *)
 Theorem replan_choice_claimant s id i k st g :
   s_status st = RUNNING -> s_plan_pending st = true -> s_bypass st = false ->
-  should_skip st = false -> s_mutex st = None -> s_choice st = Some g ->
+  should_skip st = false -> milestone_expired s st = false -> y_expired (s_syn st) = false ->
+  s_mutex st = None -> s_choice st = Some g ->
   claim_lookup (w_claims s) false g = Some i ->
   exists claimed planned,
     h_commits (start_if_ready s id i k st false) =
@@ -74,8 +76,8 @@ Theorem replan_choice_claimant s id i k st g :
     /\ s_plan_pending planned = false /\ s_ctx planned = planned_ctx s st /\ s_status planned = RUNNING
     /\ ~ In i (siblings_not_started s i g).
 Proof.
-  intros E P B Sk M C Own. unfold start_if_ready. rewrite E, P. simpl.
-  rewrite Sk. unfold mutex_blocked. rewrite M, C. simpl.
+  intros E P B Sk Ms Ex M C Own. unfold start_if_ready. rewrite E, P. simpl.
+  rewrite Sk, Ms, Ex. unfold mutex_blocked. rewrite M, C. simpl.
   unfold acquire_claim. cbn [with_claims w_claims]. rewrite Own, Nat.eqb_refl. simpl.
   eexists. eexists. split; [reflexivity|]. simpl. rewrite E. repeat split.
   unfold siblings_not_started. intros H. apply filter_In in H. destruct H as [_ H]. rewrite Nat.eqb_refl in H. discriminate.
